@@ -163,6 +163,25 @@ func unitC15(x *ctx) {
 		for _, n := range names {
 			emitAll(docs[n], "base "+n, true, false)
 		}
+		// pipelines that include each other: an entry pipeline in front of a two-pipeline cycle and in front
+		// of a self-including pipeline, under every assignment of three names to the roles (whatever order
+		// the loader visits them in, the commands must end with an error or a result)
+		pn := []string{"pa", "pb", "pc"}
+		for _, perm := range [][3]int{{0, 1, 2}, {0, 2, 1}, {1, 0, 2}, {1, 2, 0}, {2, 0, 1}, {2, 1, 0}} {
+			entry, c1, c2 := pn[perm[0]], pn[perm[1]], pn[perm[2]]
+			cyc := M{"tasks": M{"t": M{"command": "echo t"}}, "pipelines": M{
+				entry: L{M{"pipeline": c1}},
+				c1:    L{M{"task": "t"}, M{"pipeline": c2, "depends_on": L{"t"}}},
+				c2:    L{M{"pipeline": c1}},
+			}}
+			emitAll(cyc, fmt.Sprintf("base inclusion-cycle entry=%s cycle=%s,%s", entry, c1, c2), true, false)
+			self := M{"tasks": M{"t": M{"command": "echo t"}}, "pipelines": M{
+				entry: L{M{"pipeline": c1}},
+				c1:    L{M{"task": "t"}, M{"pipeline": c1, "name": "again"}},
+				c2:    L{M{"task": "t"}},
+			}}
+			emitAll(self, fmt.Sprintf("base self-inclusion entry=%s self=%s", entry, c1), true, false)
+		}
 	case "c15-single": // every single deviation at every node of the document tree, three formats
 		for _, n := range names {
 			for _, p := range paths(docs[n], nil) {
